@@ -82,6 +82,27 @@ fn idump(doc: &Doc) -> String { internal_dump(&store_dump(doc)) }
 fn has_gap(doc: &Doc) -> bool { let vs = store_dump(doc); vs.has_pending || vs.has_pending_ds || vs.blocks.iter().any(|(_, b)| b.iter().any(|x| matches!(x, yrs::verif::VBlock::Skip(..)))) }
 
 // ------------------------------------------------------------------------------------------------ C06
+fn svo_string(v: &StateVector) -> String { let e: Vec<String> = v.iter().map(|(c, k)| format!("{:x}:{:x}", c.get(), k)).collect(); if e.is_empty() { "_".into() } else { e.join(",") } }
+fn svo_sorted(v: &StateVector) -> String { let mut e: Vec<(u64, u32)> = v.iter().map(|(c, k)| (c.get(), *k)).collect(); e.sort(); if e.is_empty() { "_".into() } else { e.iter().map(|(c, k)| format!("{:x}:{:x}", c, k)).collect::<Vec<_>>().join(",") } }
+fn svo_random(r: &mut Rng) -> StateVector { let mut v = StateVector::default(); for _ in 0..r.below(5) { let c = yrs::block::ClientID::new(r.range(1, 5)); let k = r.below(4) as u32; if r.chance(1, 2) { v.set_max(c, k) } else { v.set_min(c, k) } } v }
+/// the implementation's comparison and merge of two state vectors against the transcription; a vector and its merge with another
+/// one must compare Less or Equal (the property's "dominates" is this order)
+fn svo_tie(a: &StateVector, b: &StateVector, md: &mut Model, fails: &mut Vec<serde_json::Value>, rep: &mut Report) {
+    let want = match a.partial_cmp(b) { Some(std::cmp::Ordering::Less) => "L", Some(std::cmp::Ordering::Equal) => "E", Some(std::cmp::Ordering::Greater) => "G", None => "N" };
+    let m = md.ask(&format!("SVO cmp {} {}", svo_string(a), svo_string(b)));
+    rep.count("c06_state_vector_comparisons_compared_with_the_transcription"); rep.count(&format!("c06_state_vector_comparison_{}", want));
+    if m != format!("ok {} wf=1", want) { rep.disagree(json!({"kind": "StateVector::partial_cmp transcription", "model": m, "impl": want, "a": svo_string(a), "b": svo_string(b)})); }
+    let mut merged = a.clone(); merged.merge(b.clone());
+    let mm = md.ask(&format!("SVO merge {} {}", svo_string(a), svo_string(b)));
+    if mm != format!("ok {}", svo_sorted(&merged)) { rep.disagree(json!({"kind": "StateVector::merge transcription", "model": mm, "impl": svo_sorted(&merged), "a": svo_string(a), "b": svo_string(b)})); }
+    // the oracle of the property itself, on the implementation: pointwise order by get() = the verdict; the merge dominates both
+    let clients: std::collections::BTreeSet<u64> = a.iter().chain(b.iter()).map(|(c, _)| c.get()).collect();
+    let le = clients.iter().all(|c| a.get(&yrs::block::ClientID::new(*c)) <= b.get(&yrs::block::ClientID::new(*c)));
+    let ge = clients.iter().all(|c| a.get(&yrs::block::ClientID::new(*c)) >= b.get(&yrs::block::ClientID::new(*c)));
+    let spec = match (le, ge) { (true, true) => "E", (true, false) => "L", (false, true) => "G", (false, false) => "N" };
+    let dom = clients.iter().all(|c| { let c = yrs::block::ClientID::new(*c); merged.get(&c) == a.get(&c).max(b.get(&c)) });
+    if spec != want || !dom { fails.push(json!({"class": "state-vector-order", "impl_partial_cmp": want, "pointwise": spec, "merge_is_pointwise_max": dom, "a": svo_string(a), "b": svo_string(b)})); }
+}
 fn c06_case(seed: u64, index: u64, md: &mut Model, rep: &mut Report) {
     let mut r = Rng::for_case(seed, 106, index);
     let n = r.range(2, 4) as usize;
@@ -101,6 +122,9 @@ fn c06_case(seed: u64, index: u64, md: &mut Model, rep: &mut Report) {
             let (ids_a, del_a) = idsets(&h.reps[a].doc);
             let sv_a = h.reps[a].doc.transact().state_vector();
             if has_gap(&h.reps[a].doc) || has_gap(&bb.doc) { nontrivial = true; rep.count("c06_pairs_with_gaps_or_stash"); }
+            // StateVector::partial_cmp / merge (Crdt/SvOrder.v) on the two vectors, in the iteration order of the real maps, and on
+            // a synthetic pair (explicit zero entries, clients known to one side only)
+            if variant == 0 { svo_tie(&sv_a, &sv_b0, md, &mut fails, rep); let mut r2 = Rng::for_case(seed, 206, index * 16 + (a * 4 + b) as u64); let (x, y) = (svo_random(&mut r2), svo_random(&mut r2)); svo_tie(&x, &y, md, &mut fails, rep); }
             let u = { let t = h.reps[a].doc.transact(); match (v2, full) {
                 (false, false) => t.encode_diff_v1(&sv_used), (true, false) => t.encode_diff_v2(&sv_used),
                 (false, true) => t.encode_state_as_update_v1(&sv_used), (true, true) => t.encode_state_as_update_v2(&sv_used) } };
